@@ -459,6 +459,34 @@ fn same_answers<I: csi::binning_index::index::reference_sequence::Index>(
     true
 }
 
+/// An index BUILT by the indexer from a sorted record stream answers every query with chunks that
+/// cover the start offset of every mapped record intersecting the region: the bins of the region
+/// contain the record's bin (containment) and pruning by the linear / per-bin offset keeps its chunk.
+fn covers_records<I: csi::binning_index::index::reference_sequence::Index>(ctx: &mut Ctx, kind: &str, ix: &binning_index::Index<I>, recs: &[GenRec], qs: &[(usize, usize)], case: &str) {
+    for &(s, e) in qs {
+        if s > e {
+            continue;
+        }
+        let iv = noodles_core::region::Interval::from(pos(s)..=pos(e));
+        for rid in 0..ix.reference_sequences().len() {
+            let Ok(chunks) = ix.query(rid, iv) else { continue };
+            for r in recs.iter().filter(|r| r.rid == rid && r.mapped && r.s <= e && s <= r.e) {
+                ctx.eval(None);
+                let at = u64::from(r.c.start());
+                if !covered(&chunks, at) {
+                    ctx.fail(
+                        &format!("{kind}-query-uncovers-record"),
+                        format!("record {}..{} of ref {rid} at offset {at} intersects {s}-{e} but the query's chunks {} do not cover it", r.s, r.e, fmt_chunks(&chunks)),
+                        case.into(),
+                    );
+                    return;
+                }
+            }
+        }
+    }
+    ctx.bump(&format!("{kind}_query_covers_records"));
+}
+
 fn gen_header(rng: &mut Rng, nref: usize) -> Header {
     let mut b = match rng.below(4) {
         0 => Header::builder(),
@@ -541,7 +569,8 @@ fn one_roundtrip(ctx: &mut Ctx, sub: u64) {
     {
         let (recs, _) = gen_sorted_records(&mut rng, 14, 5, nref);
         let unplaced = rng.below(4);
-        let idx: noodles_bam::bai::Index = if rng.chance(1, 4) { arbitrary_linear_index(&mut rng, nref, None) } else { build_index(&recs, 14, 5, nref, unplaced, None) };
+        let built = !rng.chance(1, 4);
+        let idx: noodles_bam::bai::Index = if !built { arbitrary_linear_index(&mut rng, nref, None) } else { build_index(&recs, 14, 5, nref, unplaced, None) };
         let r = guarded(|| -> std::io::Result<noodles_bam::bai::Index> {
             let mut w = noodles_bam::bai::io::Writer::new(Vec::new());
             w.write_index(&idx)?;
@@ -554,6 +583,9 @@ fn one_roundtrip(ctx: &mut Ctx, sub: u64) {
                 let qs = queries_for(&mut rng, 14, 5, &recs);
                 // BAI does not store an absent unplaced count distinctly from… compare answers, and equality when possible
                 same_answers(ctx, "bai", &idx, &back, &qs, &case);
+                if built {
+                    covers_records(ctx, "bai", &back, &recs, &qs, &case);
+                }
                 if back != idx && idx.unplaced_unmapped_record_count().is_some() {
                     ctx.bump("bai_not_structurally_equal");
                 }
@@ -568,7 +600,8 @@ fn one_roundtrip(ctx: &mut Ctx, sub: u64) {
         let (recs, _) = gen_sorted_records(&mut rng, 14, 5, nref);
         let header = gen_header(&mut rng, nref);
         let unplaced = rng.below(4);
-        let idx: noodles_tabix::Index = if rng.chance(1, 4) { arbitrary_linear_index(&mut rng, nref, Some(header)) } else { build_index(&recs, 14, 5, nref, unplaced, Some(header)) };
+        let built = !rng.chance(1, 4);
+        let idx: noodles_tabix::Index = if !built { arbitrary_linear_index(&mut rng, nref, Some(header)) } else { build_index(&recs, 14, 5, nref, unplaced, Some(header)) };
         let r = guarded(|| -> std::io::Result<noodles_tabix::Index> {
             let mut w = noodles_tabix::io::Writer::new(Vec::new());
             w.write_index(&idx)?;
@@ -581,6 +614,9 @@ fn one_roundtrip(ctx: &mut Ctx, sub: u64) {
             Ok(Ok(back)) => {
                 let qs = queries_for(&mut rng, 14, 5, &recs);
                 same_answers(ctx, "tabix", &idx, &back, &qs, &case);
+                if built {
+                    covers_records(ctx, "tabix", &back, &recs, &qs, &case);
+                }
             }
             Ok(Err(e)) => ctx.fail("tabix-roundtrip", format!("write/read failed: {e}"), case.clone()),
             Err(p) => ctx.fail("tabix-roundtrip", format!("panic: {p}"), case.clone()),
@@ -605,6 +641,7 @@ fn one_roundtrip(ctx: &mut Ctx, sub: u64) {
             Ok(Ok(back)) => {
                 let qs = queries_for(&mut rng, ms, d, &recs);
                 same_answers(ctx, "csi", &idx, &back, &qs, &case);
+                covers_records(ctx, "csi", &back, &recs, &qs, &case);
             }
             Ok(Err(e)) => ctx.fail("csi-roundtrip", format!("write/read failed: {e}"), case.clone()),
             Err(p) => ctx.fail("csi-roundtrip", format!("panic: {p}"), case.clone()),
